@@ -71,6 +71,9 @@ class Collector:
         self.extra = {}              # named integer counters
         self.notes = []              # caps hit etc.
         self.payload = []            # arbitrary picklable data returned by workers
+        self.known_counts = {}       # known-finding id -> number of failing cases attributed to it
+        self.known_examples = {}     # known-finding id -> a few failures
+        self.classifier = None       # fn(failure) -> known-finding id or None (set by the runner)
 
     # ---- recording API
     def evaluated(self, n=1):
@@ -98,10 +101,21 @@ class Collector:
             self.notes.append(text)
 
     def fail(self, case, why, observed=None, sig=None):
-        """Record a property failure for `case` (a JSON-able description sufficient to replay it)."""
+        """Record a property failure for `case` (a JSON-able description sufficient to replay it).
+
+        Attribution to a known finding happens here, for EVERY failing case (so no failure is ever dropped
+        unclassified); only a few examples per known finding are kept, all unattributed failures are kept up to MAX_FAIL."""
         self.n_failures += 1
+        f = {'case': case, 'why': why, 'observed': observed, 'sig': sig or why}
+        kid = self.classifier(f) if self.classifier is not None else None
+        if kid is not None:
+            self.known_counts[kid] = self.known_counts.get(kid, 0) + 1
+            ex = self.known_examples.setdefault(kid, [])
+            if len(ex) < 3:
+                ex.append(f)
+            return
         if len(self.failures) < self.MAX_FAIL:
-            self.failures.append({'case': case, 'why': why, 'observed': observed, 'sig': sig or why})
+            self.failures.append(f)
 
     def merge(self, other):
         self.evaluations += other.evaluations
@@ -121,6 +135,11 @@ class Collector:
         for n in other.notes:
             self.note(n)
         self.payload.extend(other.payload)
+        for k, v in other.known_counts.items():
+            self.known_counts[k] = self.known_counts.get(k, 0) + v
+        for k, v in other.known_examples.items():
+            ex = self.known_examples.setdefault(k, [])
+            ex.extend(v[:max(0, 3 - len(ex))])
 
 
 def _worker_entry(args):
@@ -129,12 +148,14 @@ def _worker_entry(args):
     import importlib
     mod = importlib.import_module(modname)
     col = Collector()
+    col.classifier = make_classifier(mod, getattr(mod, 'PROPERTY'))
     try:
         getattr(mod, fname)(col, item, tier, seed)
     except HarnessError:
         raise
     except Exception:
         raise HarnessError('worker %s.%s failed on item %r:\n%s' % (modname, fname, item, traceback.format_exc()))
+    col.classifier = None
     return col
 
 
@@ -237,31 +258,33 @@ def _notes_caps(self):
 Collector.notes_caps = _notes_caps
 
 
-def attribute_failures(mod, ctx):
-    """Split failures into known findings and violations. Returns (known_lines, violations)."""
+def make_classifier(mod, prop):
     selectors = getattr(mod, 'KNOWN_SELECTORS', {})
-    known = [k for k in load_known() if k['property'] == ctx.prop and k['status'] == 'known']
-    matched = {}
-    violations = []
-    for f in ctx.failures:
-        hit = None
+    known = [k for k in load_known() if k['property'] == prop and k['status'] == 'known']
+    for k in known:
+        if k['selector'] not in selectors:
+            raise HarnessError('known finding %s names unknown selector %s' % (k['id'], k['selector']))
+
+    def classify(f):
         for k in known:
-            sel = selectors.get(k['selector'])
-            if sel is None:
-                raise HarnessError('known finding %s names unknown selector %s' % (k['id'], k['selector']))
             try:
-                ok = sel(f)
+                if selectors[k['selector']](f):
+                    return k['id']
             except Exception:
                 raise HarnessError('selector %s raised:\n%s' % (k['selector'], traceback.format_exc()))
-            if ok:
-                hit = k
-                break
-        if hit is None:
-            violations.append(f)
-        else:
-            matched.setdefault(hit['id'], [hit, 0])[1] += 1
-    if ctx.n_failures > len(ctx.failures):
-        ctx.note('CAP: only the first %d of %d failing cases were kept for attribution' % (len(ctx.failures), ctx.n_failures))
+        return None
+
+    return classify
+
+
+def attribute_failures(mod, ctx):
+    """Returns (matched: id -> [entry, count], violations). Attribution itself happened in Collector.fail()."""
+    known = {k['id']: k for k in load_known() if k['property'] == ctx.prop and k['status'] == 'known'}
+    matched = {kid: [known[kid], n] for kid, n in ctx.known_counts.items()}
+    violations = list(ctx.failures)
+    unattributed = ctx.n_failures - sum(ctx.known_counts.values())
+    if unattributed > len(ctx.failures):
+        ctx.note('CAP: only the first %d of %d unattributed failing cases were kept' % (len(ctx.failures), unattributed))
     return matched, violations
 
 
@@ -298,6 +321,7 @@ def main(argv=None):
     try:
         mod = importlib.import_module('verif.props.%s' % prop.lower())
         ctx = Context(prop, a.tier, seed, a.jobs)
+        ctx.classifier = make_classifier(mod, prop)
         if a.replay:
             with open(a.replay) as f:
                 rp = json.load(f)
@@ -305,6 +329,7 @@ def main(argv=None):
             sigs = []
             for _ in range(2):
                 c2 = Context(prop, a.tier, seed, 1)
+                c2.classifier = None
                 mod.replay(c2, rp['case'])
                 sigs.append(sorted(canon([x['sig'], x['why']]) for x in c2.failures))
             if sigs[0] != sigs[1]:
@@ -317,7 +342,7 @@ def main(argv=None):
                 print('VIOLATION property=%s replay=%s' % (prop, a.replay))
                 print('  why: %s' % f['why'])
                 print('  observed: %s' % canon(f['observed'])[:2000])
-            if not ctx.failures:
+            if ctx.n_failures == 0:
                 print('replay: the case no longer violates %s' % prop)
             return 1 if violations else 0
         mod.run(ctx)
@@ -339,7 +364,7 @@ def main(argv=None):
             print('  why: %s' % str(f['why'])[:1500])
         if violations:
             print('%d violating cases in %d distinct classes' % (len(violations), len(seen_sig)))
-        nviol = len(violations) + max(0, ctx.n_failures - len(ctx.failures)) if violations else 0
+        nviol = ctx.n_failures - sum(ctx.known_counts.values())
         if len(ctx.outcomes) <= 1 and ctx.evaluations > 1 and not getattr(mod, 'SINGLE_OUTCOME_OK', False):
             raise HarnessError('vacuous run: %d evaluations produced %d distinct outcomes' % (ctx.evaluations, len(ctx.outcomes)))
         path = write_evidence(mod, ctx, nviol)
